@@ -1,7 +1,8 @@
 """C12 - payoffs equal their contractual definitions and ordering.
 R1 the payoff functionals against the definitions of the statement (column algebra); R2 each derivative class calls its
 functional on its underlier's spot with its own call/strike; R3 clauses fold over payoff_fn() in registration order;
-R5 index hazard floor(start/dt)."""
+R5 index hazard floor(start/dt).
+Added after the seeded-defect rounds: R6 a float strike / dt is compared with the prices unrounded; R7 payoff() keeps no memoised state; R3 the clause iterators may not filter or de-duplicate."""
 import ast
 
 import sympy as sp
